@@ -381,6 +381,9 @@ def _handle_fn_body(body: list[ast.stmt], ctx: Context) -> sympy.Expr | None:
                 if isinstance(node.value, ast.Tuple):
                     # Direct unpacking like c, d = a, b
                     value_elements = node.value.elts
+                    # Evaluate the whole right-hand side first, then bind, as
+                    # Python does (x, y = y, x swaps)
+                    new_symbols = {}
                     for target, value_expr in zip(
                         target_elements, value_elements, strict=True
                     ):
@@ -388,7 +391,8 @@ def _handle_fn_body(body: list[ast.stmt], ctx: Context) -> sympy.Expr | None:
                             expr = _handle_expr(value_expr, ctx)
                             if expr is None:
                                 return None
-                            ctx.symbols[target.id] = expr
+                            new_symbols[target.id] = expr
+                    ctx.symbols.update(new_symbols)
                 else:
                     # Handle potential iterable unpacking
                     value = _handle_expr(node.value, ctx)
